@@ -110,13 +110,23 @@ Fixpoint ccond_eqb (a b : ccond) : bool :=
   | _, _ => false
   end.
 
+Definition errclass_eqb (a b : errclass) : bool :=
+  match a, b with
+  | EValueError, EValueError | EDependentProperties, EDependentProperties | EPropertyPresence, EPropertyPresence
+  | EInvalidValue, EInvalidValue | EAtLeastOne, EAtLeastOne | EMutuallyExclusive, EMutuallyExclusive
+  | EMissing, EMissing | EExtra, EExtra | ECustomContent, ECustomContent | EInvalidSelector, EInvalidSelector
+  | ETLPMarkingDefinition, ETLPMarkingDefinition => true
+  | EOther x, EOther y => ustr_eqb x y
+  | _, _ => false
+  end.
+
 Fixpoint constr_eqb (a b : constr) {struct a} : bool :=
   match a, b with
   | CAtLeastOne p, CAtLeastOne q => ulist_eqb p q
   | CAtLeastOneDefault, CAtLeastOneDefault => true
   | CMutEx p, CMutEx q => ulist_eqb p q
   | CDepends p r, CDepends q t => ulist_eqb p q && ulist_eqb r t
-  | CRaiseIf c _, CRaiseIf d _ => ccond_eqb c d
+  | CRaiseIf c e, CRaiseIf d e' => ccond_eqb c d && errclass_eqb e e'
   | CWhen c body, CWhen d body' =>
     ccond_eqb c d &&
     (fix go (x y : list constr) : bool :=
